@@ -3,7 +3,7 @@ From Coq Require Import List Arith NArith.
 Import ListNotations.
 From LinDBV.C05 Require Import Model Proofs.
 
-(* for every history of appends (any sizes 1..page size, page roll-over included), crashes at any store of an
+(* for every history of appends (any sizes 0..page size - the empty message included, page roll-over included), crashes at any store of an
    append (torn copy, after the copy, inside / after the index entry, after the meta store) and reopens:
    every message of the abstract log is read back under its own sequence number with its own content *)
 Theorem C05_seq_put_get : forall ops, Forall ok_op ops ->
